@@ -277,6 +277,9 @@ func missingFields(p *Program, want []string) []string {
 	for _, w := range want {
 		for _, m := range fieldTokRe.FindAllStringSubmatch(w, -1) {
 			n := m[1]
+			if m[2] == "(" {
+				continue // a function or method name
+			}
 			if n == "com" || n == "bucketHandle" || n == "slot" || n == "bucketIterator" || seen[n] {
 				continue
 			}
